@@ -99,6 +99,7 @@ def run_reader_check(prop, tier):
         sets.append(("subsets_frag2", p, 2))
         sets.append(("subsets_scale4096_frag4096", p, 4096, {"scale": 4096}))
         sets.append(("subsets_scale4096_frag8192", p, 8192, {"scale": 4096}))
+        sets.append(("subsets_scale100_frag30", p, 30, {"scale": 100}))
         sets.append(("subsets_scale70000_frag3000", p, 3000, {"scale": 70000, "every": 2 if tier == "quick" else 1}))
         sets.append(("subsets_dialect1", p, 0, {"dialect": 1}))
         sets.append(("subsets_dialect2", p, 0, {"dialect": 2}))
@@ -125,6 +126,10 @@ def run_reader_check(prop, tier):
         # and with a non-zero retry delay (the Delay state of the range request)
         sets.append(("faults_scale70000", p, 0, {"scale": 70000, "every": 3 if tier == "quick" else 1}))
         sets.append(("faults_scale4096_frag3000", p, 3000, {"scale": 4096, "every": 5 if tier == "quick" else 1}))
+        # gaps between requested chunks of 100 - 400 bytes with body fragments of 30 and 70 bytes: fragment boundaries fall inside chunks AND inside the
+        # stretches between them (a reader that fetched across small gaps would have to drop exactly those bytes)
+        sets.append(("faults_scale100_frag30", p, 30, {"scale": 100, "every": 2 if tier == "quick" else 1}))
+        sets.append(("faults_scale100_frag70", p, 70, {"scale": 100, "every": 4 if tier == "quick" else 1}))
         sets.append(("faults_scale3000000", p, 0, {"scale": 3000000, "every": 23 if tier == "quick" else 5}))
         sets.append(("faults_giant250MB", giant_subset(p, workdir, "fgiant250", 1 if tier == "quick" else 3, need_fin=True), 0, {"scale": 250000000, "shards": 3}))
         if tier == "thorough":
